@@ -142,6 +142,8 @@ class MachO(BinFormat):
         f.seek(0)
         while lcsize < self.header.sizeofcmds:
             cmd = struct_load_command(f, offset)
+            if cmd.cmdsize < len(cmd):
+                raise MachOError("bad load command size")
             data = f[offset : offset + cmd.cmdsize]
             offset += cmd.cmdsize
             lcsize += cmd.cmdsize
@@ -396,7 +398,7 @@ class MachO(BinFormat):
                     r.seg_offset += skip + l
                 cur += cnt + cnt2
             else:
-                raise NotImplementedError
+                raise MachOError("unknown bind opcode %d" % op)
         return L
 
     def __read_dysymtab(self, cmd):
